@@ -268,30 +268,128 @@ func runC06(c *Ctx) {
 			} else {
 				c.RequireAnyGate(rule, attach, []Gate{gLast, gEmpty}, nil, endAppends, "append of c at the end of prev.Next", nil, false)
 			}
-			// (b) the middle insertion stores c at an index chosen by `el.Id >= c.Id`
-			gFirstGE := GCmp("el.Id >= c.Id", func(a Atom) (bool, bool) {
-				switch a.Op {
-				case token.GEQ, token.GTR:
-					if isIdOf(a.X, false) && isIdOf(a.Y, true) {
-						return true, true
+			// (b) the in-place insertion: the index c is stored at, relative to the scan variable at the
+			// exit of the scanning loop, against the truth of `el.Id >= c.Id` on that exit edge:
+			//   index == scan var    and  el >= c holds      → inserts before the first greater-or-equal child  (ok)
+			//   index == scan var+1  and  el >= c fails      → inserts after the last smaller child              (ok)
+			//   index == scan var    and  el >= c fails      → inserts BEFORE a smaller child                    (wrong)
+			//   index == scan var+1  and  el >= c holds      → inserts AFTER a greater child                     (wrong)
+			// any other shape is not recognised and this clause is then not decided (silent).
+			var storeIdx ssa.Value
+			var storeIn ssa.Instruction
+			for _, in := range midStores {
+				st := in.(*ssa.Store)
+				if ia, ok := st.Addr.(*ssa.IndexAddr); ok {
+					storeIdx, storeIn = ia.Index, in
+				}
+			}
+			type exitFact struct {
+				pos    token.Pos
+				rel    int // 0, +1, 99 unknown
+				geq    bool
+				reason string
+			}
+			var facts []exitFact
+			loops := Loops(attach)
+			if storeIdx != nil {
+				for _, b := range attach.Blocks {
+					iff, ok := b.Instrs[len(b.Instrs)-1].(*ssa.If)
+					if !ok {
+						continue
 					}
-				case token.LEQ, token.LSS:
-					if isIdOf(a.X, true) && isIdOf(a.Y, false) {
-						return true, true
+					a := AtomOf(iff)
+					var elId ssa.Value
+					geWhenTrue := false
+					switch {
+					case isIdOf(a.X, false) && isIdOf(a.Y, true):
+						elId = a.X
+						geWhenTrue = a.Op == token.GEQ || a.Op == token.GTR
+					case isIdOf(a.X, true) && isIdOf(a.Y, false):
+						elId = a.Y
+						geWhenTrue = a.Op == token.LEQ || a.Op == token.LSS
+					default:
+						continue
+					}
+					switch a.Op {
+					case token.GEQ, token.GTR, token.LEQ, token.LSS:
+					default:
+						continue
+					}
+					// the scanned element's index
+					var x ssa.Value
+					_, base := LoadedField(elId)
+					vals, _ := Origins(base)
+					for _, o := range vals {
+						if u, ok := o.(*ssa.UnOp); ok {
+							if ia, ok := u.X.(*ssa.IndexAddr); ok && IsLoadOfField(ia.X, fNext) {
+								x = ia.Index
+							}
+						}
+					}
+					l := InnermostLoop(loops, iff)
+					if x == nil || l == nil {
+						continue
+					}
+					for si, succ := range b.Succs {
+						if l.Blocks[succ] {
+							continue
+						}
+						// follow jump-only blocks
+						from, m := b, succ
+						for len(m.Instrs) == 1 && len(m.Succs) == 1 {
+							if _, isJ := m.Instrs[0].(*ssa.Jump); !isJ {
+								break
+							}
+							from, m = m, m.Succs[0]
+						}
+						r := Reach(attach, ReachOpts{Starts: []*ssa.BasicBlock{succ}})
+						if !r.Reachable(storeIn) {
+							continue
+						}
+						kv := storeIdx
+						if ph, ok := storeIdx.(*ssa.Phi); ok && ph.Block() == m {
+							for pi, pr := range m.Preds {
+								if pr == from {
+									kv = ph.Edges[pi]
+								}
+							}
+						}
+						rel := 99
+						if kv == x {
+							rel = 0
+						} else if bo, ok := kv.(*ssa.BinOp); ok && bo.Op == token.ADD && bo.X == x {
+							if k, ok := IntConst(bo.Y); ok && k == 1 {
+								rel = 1
+							}
+						}
+						atomTrue := si == a.TrueSucc()
+						geq := geWhenTrue == atomTrue
+						facts = append(facts, exitFact{iff.Pos(), rel, geq, ""})
 					}
 				}
-				return false, false
-			})
-			_, sites := gFirstGE.PassEdges(attach)
-			// the index stored to comes from the loop whose exit is that comparison
-			ok := len(midStores) > 0 && len(sites) > 0
-			det := "the insertion index is the first child whose Id is >= c.Id"
-			if len(midStores) == 0 {
-				det = "attach has no in-place insertion of c into prev.Next"
-			} else if len(sites) == 0 {
-				det = "the insertion position of c inside prev.Next is not chosen by comparing child ids with c.Id in ascending sense (el.Id >= c.Id)"
 			}
-			c.Check(ok, rule, FuncName(attach)+"|insertion index", p.Pos(attach.Pos()), det)
+			bad, good := "", 0
+			for _, f := range facts {
+				switch {
+				case f.rel == 0 && f.geq, f.rel == 1 && !f.geq:
+					good++
+				case f.rel == 0 && !f.geq:
+					bad = "c is stored at the index of a child whose Id is SMALLER than c.Id (scan exit at " + p.Pos(f.pos) + "): it is inserted before a smaller sibling, so Next is not ascending for a middle id"
+				case f.rel == 1 && f.geq:
+					bad = "c is stored after a child whose Id is GREATER OR EQUAL (scan exit at " + p.Pos(f.pos) + ")"
+				}
+			}
+			switch {
+			case len(midStores) == 0:
+				c.Violate(rule, FuncName(attach)+"|insertion index", p.Pos(attach.Pos()), "attach has no in-place insertion of c into prev.Next")
+			case bad != "":
+				c.Violate(rule, FuncName(attach)+"|insertion index", p.Pos(InstrPos(storeIn)), bad)
+			case good > 0:
+				c.Hold(rule, FuncName(attach)+"|insertion index", p.Pos(InstrPos(storeIn)), "c is stored at the first child whose Id is >= c.Id (or right after the last smaller one)")
+			default:
+				c.Hold(rule, FuncName(attach)+"|insertion index", p.Pos(InstrPos(storeIn)), "the scan that chooses the insertion index has a shape this rule does not recognise: clause not decided")
+				c.Note("C06.2: insertion-index scan shape not recognised; not decided")
+			}
 		}
 		c.Min(rule, 1)
 	}
@@ -341,6 +439,109 @@ func runC06(c *Ctx) {
 		}
 		c.Check(found, "C06.3-order-id-walk", FuncName(updateHeads)+"|walks iteration buffer last→0", p.Pos(updateHeads.Pos()),
 			orDefault(map[bool]string{false: "updateHeads no longer visits the whole iteration buffer from its end down to index 0"}[found], "every change of the buffer is visited once, in iteration order"))
+	}
+
+	// ================================================= C06.5 the head presented last
+	{
+		rule := "C06.5-last-iterated-head"
+		c.Fn(FuncName(updateHeads))
+		fLast := p.Field(otPkg + ":Tree.lastIteratedHeadId")
+		fHeads := p.Field(otPkg + ":Tree.headIds")
+		iterBuf := p.Func(otPkg + ":(*iterator).makeIterBuffer")
+		ws := FieldWrites([]*ssa.Function{updateHeads}, fLast)
+		if len(ws) == 0 {
+			c.Violate(rule, FuncName(updateHeads)+"|assigns lastIteratedHeadId", p.Pos(updateHeads.Pos()), "updateHeads no longer records the head presented last")
+		}
+		for _, w := range ws {
+			bad := ""
+			u, _ := w.Val.(*ssa.UnOp)
+			var ia *ssa.IndexAddr
+			if u != nil {
+				ia, _ = u.X.(*ssa.IndexAddr)
+			}
+			if ia == nil {
+				c.Hold(rule, FuncName(updateHeads)+"|assigns lastIteratedHeadId", p.Pos(InstrPos(w.Instr)), "value is not an element of a slice: shape not recognised, clause not decided")
+				continue
+			}
+			S := ia.X
+			// (a) S is filled in presentation order: its appends take the Id of elements of the iteration buffer
+			fromWalk := false
+			aliasHeads := false
+			if IsLoadOfField(S, fHeads) {
+				aliasHeads = true
+			}
+			var srcs []ssa.Value
+			srcs = append(srcs, S)
+			if aliasHeads {
+				for _, hw := range FieldWrites([]*ssa.Function{updateHeads}, fHeads) {
+					if hw.Kind == "store" {
+						srcs = append(srcs, hw.Val)
+					}
+				}
+			}
+			for _, src := range srcs {
+				for _, ap := range appendsFeeding(src) {
+					for _, e := range appendedElems(ap) {
+						if usesValue(e, func(v ssa.Value) bool {
+							call, ok := v.(*ssa.Call)
+							return ok && CalleeFn(iterBuf)(&call.Call)
+						}) {
+							fromWalk = true
+						}
+					}
+				}
+			}
+			if !fromWalk {
+				bad = "the slice lastIteratedHeadId is read from is not the list of heads collected while walking the iteration buffer"
+			}
+			// (b) it is the last element
+			isLast := false
+			if bo, ok := ia.Index.(*ssa.BinOp); ok && bo.Op == token.SUB {
+				if k, ok := IntConst(bo.Y); ok && k == 1 {
+					if lc, ok := bo.X.(*ssa.Call); ok {
+						if bi, ok := lc.Call.Value.(*ssa.Builtin); ok && bi.Name() == "len" {
+							isLast = true
+						}
+					}
+				}
+			}
+			if bad == "" && !isLast {
+				bad = "lastIteratedHeadId is not the LAST collected head"
+			}
+			// (c) no sort of that slice (or of t.headIds, which shares its backing array) can run before the read
+			if bad == "" {
+				stored := map[ssa.Value]bool{}
+				for _, hw := range FieldWrites([]*ssa.Function{updateHeads}, fHeads) {
+					if hw.Kind == "store" {
+						stored[hw.Val] = true
+					}
+				}
+				for _, ci := range CallsIn(updateHeads) {
+					call, ok := ci.(*ssa.Call)
+					if !ok {
+						continue
+					}
+					o := CalleeObj(&call.Call)
+					if o == nil || o.Pkg() == nil || !(o.Pkg().Path() == "sort" || strings.HasSuffix(o.Pkg().Path(), "slices")) || !strings.Contains(o.Name(), "Sort") && o.Name() != "Strings" && o.Name() != "Slice" {
+						continue
+					}
+					alias := false
+					for _, a := range call.Call.Args {
+						if a == S || (IsLoadOfField(a, fHeads) && (aliasHeads || stored[S])) || shareOriginDeep(a, S) {
+							alias = true
+						}
+					}
+					if !alias {
+						continue
+					}
+					r := Reach(updateHeads, ReachOpts{From: call})
+					if r.Reachable(u) {
+						bad = "the head list is sorted (" + p.Pos(call.Pos()) + ") before lastIteratedHeadId is read from it: the recorded head is the greatest id, not the head presented last"
+					}
+				}
+			}
+			c.Check(bad == "", rule, FuncName(updateHeads)+"|assigns lastIteratedHeadId", p.Pos(InstrPos(w.Instr)), orDefault(bad, "lastIteratedHeadId is the last head collected in presentation order, read before any sorting"))
+		}
 	}
 
 	// ================================================= C06.4 storage order key
